@@ -93,6 +93,15 @@ impl Scenario for C18 {
         };
         let cfg = Cfg { fam: fam.to_string(), a, b, seed: rng.next_u64() };
         let mut acts = vec![];
+        if fam == "cpc" && rng.chance(1, 40) {
+            // spot run over the upper part of the documented size table (lg_k 13..19), one stream of
+            // distinct items up to C/K ~ 8: each table entry gets some twenty sketches per batch, enough
+            // for the per-lg_k rate clause to tell a wrong entry from the allowed 0.1 %
+            let a = rng.range(13, 19);
+            let cfg = Cfg { fam: fam.to_string(), a, b, seed: cfg.seed };
+            acts.push(Act::Stream { kind: 0, len: (11u32 << a).min(1 << 23), seed: rng.next_u64() });
+            return (cfg, acts);
+        }
         // total stream length: log-uniform up to 2^max_lg, long streams rarer
         let lg_total = match rng.below(8) {
             0 => rng.range(14, max_lg),
@@ -232,7 +241,7 @@ impl Scenario for C18 {
                 measure(&sk, false, st)?;
             }
             "cpc" => {
-                let lg_k = (cfg.a as u8).clamp(4, 16);
+                let lg_k = (cfg.a as u8).clamp(4, 19);
                 let mut sk = CpcSketch::new(lg_k);
                 let bound = CpcSketch::max_serialized_bytes(lg_k);
                 let over = std::cell::Cell::new(false);
@@ -276,8 +285,10 @@ impl Scenario for C18 {
                 measure(&sk, st)?;
                 // the documented 0.1 % is per sketch lifetime (maximum over its measurements)
                 st.count("cpc_sketches", 1);
+                st.count(&format!("cpc_sketches_lgk{lg_k}"), 1);
                 if over.get() {
                     st.count("cpc_sketches_with_an_image_over_max_serialized_bytes", 1);
+                    st.count(&format!("cpc_sketches_over_lgk{lg_k}"), 1);
                 }
             }
             "fi" => {
